@@ -5,7 +5,7 @@ package util
 // paths is run on a real trie (memory store) and compared, after every step, with a Go map:
 // lookups of all paths, the error of deleting an absent path, and full iteration.
 // property: C01
-// scope: paths {"", 12, 13, 1234, 1235, 12ab, 12abcd, 5678}; values {x, a:b} (one with the separator byte); all sequences of <= 3 operations (quick) / <= 4 (thorough), from the empty trie and from base contents {12,1234,5678}, {12,1234,1235}
+// scope: paths {"", 12, 13, 1234, 1235, 12ab, 12abcd, 5678}; values {x, a:b} (one with the separator byte); removals alternate between Delete, Insert(nil) and Insert(empty value); an over-size value (limit+1 bytes) is offered after every one-operation history; all sequences of <= 3 operations (quick) / <= 4 (thorough), from the empty trie and from base contents {12,1234,5678}, {12,1234,1235} on the memory store; base {12,1234,5678} also on a layered store one version above the base and on the persistent store
 
 import (
 	"context"
@@ -23,6 +23,8 @@ func init() {
 	logging.Logger = zap.NewNop()
 	logging.N2n = zap.NewNop()
 }
+
+var c01oversize = make([]byte, MPTMaxAllowableNodeSize+1)
 
 type c01op struct {
 	del  bool
@@ -48,6 +50,12 @@ func TestGocvBoundedC01(t *testing.T) {
 		fails++
 	}
 	var base []string
+	storeKind := "memory"
+	dir := t.TempDir()
+	pndb, perr := NewPNodeDB(dir+"/state", dir+"/log")
+	if perr != nil {
+		t.Fatal(perr)
+	}
 	var run func(seq []c01op)
 	run = func(seq []c01op) {
 		if len(seq) > 0 {
@@ -60,7 +68,13 @@ func TestGocvBoundedC01(t *testing.T) {
 				}()
 				sc := statecache.NewStateCache()
 				_, tc := statecache.NewBlockTxnCaches(sc, statecache.Block{})
-				tr := NewMerklePatriciaTrie(NewMemoryNodeDB(), 1, nil, tc)
+				var tr *MerklePatriciaTrie
+				switch storeKind {
+				case "persistent":
+					tr = NewMerklePatriciaTrie(pndb, 1, nil, tc)
+				default:
+					tr = NewMerklePatriciaTrie(NewMemoryNodeDB(), 1, nil, tc)
+				}
 				model := map[string]string{}
 				for _, p := range base {
 					if _, err := tr.Insert(Path(p), &SecureSerializableValue{Buffer: []byte("b")}); err != nil {
@@ -68,15 +82,33 @@ func TestGocvBoundedC01(t *testing.T) {
 					}
 					model[p] = "b"
 				}
+				if storeKind == "layered" {
+					// the operations run at the next version in a new level on top of the base content
+					_, tc2 := statecache.NewBlockTxnCaches(sc, statecache.Block{})
+					upper := NewMerklePatriciaTrie(NewLevelNodeDB(NewMemoryNodeDB(), tr.GetNodeDB(), false), 2, tr.GetRoot(), tc2)
+					tr = upper
+				}
 				for i, op := range seq {
 					if op.del {
-						_, err := tr.Delete(Path(op.path))
+						// the three ways to remove a path: Delete, storing nil, storing a value that encodes to nothing
+						var err error
+						how := "Delete"
+						switch (i + len(seq) + len(op.path)/2) % 3 {
+						case 0:
+							_, err = tr.Delete(Path(op.path))
+						case 1:
+							how = "Insert(nil value)"
+							_, err = tr.Insert(Path(op.path), nil)
+						default:
+							how = "Insert(empty value)"
+							_, err = tr.Insert(Path(op.path), &SecureSerializableValue{Buffer: []byte{}})
+						}
 						_, present := model[op.path]
 						if present && err != nil {
-							fail(seq[:i+1], "Delete(%q) of a present path failed: %v", op.path, err)
+							fail(seq[:i+1], "%s (%q) of a present path failed: %v", how, op.path, err)
 						}
 						if !present && err != ErrValueNotPresent {
-							fail(seq[:i+1], "Delete(%q) of an absent path returned %v, want value not present", op.path, err)
+							fail(seq[:i+1], "%s (%q) of an absent path returned %v, want value not present", how, op.path, err)
 						}
 						delete(model, op.path)
 					} else {
@@ -112,6 +144,24 @@ func TestGocvBoundedC01(t *testing.T) {
 						fail(seq[:i+1], "iteration yields %v (err %v), want %v", got, err, want)
 					}
 				}
+				if len(seq) == 1 {
+					// an over-size value is rejected and nothing changes
+					before := append([]byte{}, tr.GetRoot()...)
+					nchanges := tr.GetChangeCount()
+					if _, err := tr.Insert(Path(seq[0].path), &SecureSerializableValue{Buffer: c01oversize}); err == nil {
+						fail(seq, "Insert(%q) of a value of %d bytes succeeded, want a rejection", seq[0].path, len(c01oversize))
+					}
+					if string(tr.GetRoot()) != string(before) || tr.GetChangeCount() != nchanges {
+						fail(seq, "a rejected over-size Insert(%q) changed the trie (root %x -> %x, %d -> %d recorded changes)", seq[0].path, before, tr.GetRoot(), nchanges, tr.GetChangeCount())
+					}
+					for _, p := range paths {
+						d, err := tr.GetNodeValueRaw(Path(p))
+						want, present := model[p]
+						if present != (err == nil) || (present && string(d) != want) {
+							fail(seq, "after a rejected over-size Insert: lookup(%q) = %q, %v; want %q (present %v)", p, d, err, want, present)
+						}
+					}
+				}
 			}()
 		}
 		if len(seq) == depth {
@@ -127,7 +177,13 @@ func TestGocvBoundedC01(t *testing.T) {
 		base = b
 		run(nil)
 	}
-	fmt.Printf("GOCV-BOUNDED cases=%d failures=%d scope=\"all sequences of <= %d insert/update/delete operations over 8 prefix-related hex paths, 2 values, memory store; from the empty trie and from the base contents {12,1234,5678} and {12,1234,1235}\"\n", cases, fails, depth)
+	// the same on a layered store (base content one level and one version below) and on the persistent store
+	for _, k := range []string{"layered", "persistent"} {
+		storeKind = k
+		base = []string{"12", "1234", "5678"}
+		run(nil)
+	}
+	fmt.Printf("GOCV-BOUNDED cases=%d failures=%d scope=\"all sequences of <= %d insert/update/delete operations over 8 prefix-related hex paths, 2 values, removal through Delete / Insert(nil) / Insert(empty value) in turn, an over-size Insert after every one-operation history, memory store from the empty trie and from the base contents {12,1234,5678} and {12,1234,1235}; base {12,1234,5678} also on a layered store (operations one version above the base, in a new level) and on the persistent store\"\n", cases, fails, depth)
 	if fails > 0 {
 		t.Fail()
 	}
